@@ -404,7 +404,7 @@ impl PartialOrd<Self> for HandRank {
 impl Ord for HandRank {
     fn cmp(&self, other: &HandRank) -> Ordering {
         if self.is_invalid() && other.is_invalid() {
-            Ordering::Equal
+            other.value.cmp(&self.value)
         } else if self.is_invalid() {
             Ordering::Less
         } else if other.is_invalid() {
